@@ -37,6 +37,7 @@ structure AbsFont where
   isTrueType : Bool
   keepNames : Bool
   svgNamesRequired : Bool               -- picosvg builds keep names on purpose
+  coverages : List (List Nat) := []     -- glyph ids of every Coverage table of GSUB / GPOS / GDEF, as stored in the binary
 deriving Repr
 
 def strictlyIncreasing : List Nat → Bool
@@ -75,6 +76,8 @@ def validFont (f : AbsFont) : Bool :=
   strictlyIncreasing (f.cblcStrikes.flatMap fun s => s.2.2) &&
   f.cmapGids.all (· < f.numGlyphs) &&
   decide (f.hmtxLen = f.numGlyphs) && decide (f.maxpNumGlyphs = f.numGlyphs) && decide (f.outlineGlyphs = f.numGlyphs) &&
-  (!f.isTrueType || f.keepNames || f.svgNamesRequired || f.postFormat3)
+  (!f.isTrueType || f.keepNames || f.svgNamesRequired || f.postFormat3) &&
+  -- layout engines and sanitisers binary-search Coverage tables: glyph ids strictly increasing
+  f.coverages.all strictlyIncreasing
 
 end NanoVerif
